@@ -76,8 +76,12 @@ def family_name(combo, cnt):
 
 def layout_ob(prop, name, lst, nelem=2, maxspan=65535, reserved=0, nvary=None, cfg=None):
     if nvary is None: nvary = lst.count(V + '<')
+    nspans = nvary + lst.count(F + '<')
     if (nvary >= 2 or F + '<' in lst) and maxspan > 64: maxspan = 64   # see DESIGN 3.6: symbolic fixed sizes / two spans
     d = [f'-DLIST={lst}', f'-DNELEM={nelem}', f'-DMAXSPAN={maxspan}', f'-DRESERVED={reserved}']
+    if nspans >= 3:
+        d.append(f'-DFORKED={nspans - 2}')     # all but the last two spans: complete case split over 0..3 objects (DESIGN 9)
+        name += f'/fork{nspans - 2}'
     c = dict(slack='both', abstract_memcpy=True, budget_s=900)
     if cfg: c.update(cfg)
     return dict(prop=prop, name=f"layout/{name}/n{nelem}/s{maxspan}" + ('/reserved' if reserved else ''), harness='h_layout.cpp', defines=d, entry='h_entry', cfg=c, list=name)
